@@ -7,6 +7,7 @@ import (
 	"io"
 	"os"
 	"path/filepath"
+	"runtime"
 	"sort"
 	"sync"
 	"sync/atomic"
@@ -124,6 +125,7 @@ func tvRun(app appendable.Appendable, c *cfg, ops int, rnd []byte) []tvEvent {
 					seen, burst = e, 0
 				}
 				if burst >= 3 {
+					runtime.Gosched()
 					continue
 				}
 				burst++
